@@ -1,7 +1,7 @@
 (* Case runner for the C17 correspondence: amplifier settings of one line as the model designs them from the
    loaded chain, their export, and the SimParams walk. *)
 From Verif Require Import Prelude Model.Chain Model.Redesign Run.C08.
-From Coq Require Import QArith.
+From Coq Require Import QArith Qround.
 Open Scope Z_scope.
 
 Fixpoint lookup {A} (k : string) (l : list (string * A)) (d : A) : A :=
@@ -21,14 +21,48 @@ Definition aout_s (o : aout) : string :=
   join "~" [o_name o; o_var o; qs (o_gain o); oqs (o_dp o); qs (o_tilt o); qs (o_voa o); qs (o_invoa o)].
 Definition ain_s (a : ain) : string :=
   join "~" [i_name a; i_var a; oqs (i_gain a); oqs (i_dp a); oqs (i_tilt a); oqs (i_voa a); oqs (i_invoa a)].
-(* designed amplifiers of a line and their exported form: "d1|d2|...#e1|e2|..." *)
+(* tie rule support: is some value that round2float rounds (delta_p target, automatic VOA) within 1e-9 of a rounding
+   tie?  The exact model and the float implementation may then legitimately round differently. *)
+Definition near_half (y : Q) : bool :=
+  let r := (y - inject_Z (Qfloor y) - (1 # 2))%Q in
+  Qle_bool (- (1 # 1000000000)) r && Qle_bool r (1 # 1000000000).
+Definition r2f_tie (x step : Q) : bool :=
+  let st := round_dec 1 step in if Qle_bool (1 # 100) st then near_half (x / st) else near_half (x * inject_Z 100).
+Definition amp_tie (s : scfg) (lib : string -> option alib) (sel : string -> string) (D : Q) (x : actx) (a : ain) : bool :=
+  (match i_dp a, x_next x with
+   | None, NLoss l => r2f_tie ((l - s_ref s) * s_slope s) (s_step s)
+   | _, _ => false
+   end)
+  || match lib (amp_var sel a), i_voa a with
+     | Some b, None =>
+         s_pm s && b_vauto b &&
+         (let gd := amp_gd s D x a in let pr := amp_pr s D x a b gd in
+          r2f_tie (qmin (b_pmax b - (x_ptot x + snd gd)) (b_gfm b - (fst gd + pr))) (s_vstep s))
+     | _, _ => false
+     end.
+Fixpoint amps_tie (s : scfg) (lib : string -> option alib) (sel : string -> string) (D : Q) (l : list (actx * ain)) : bool :=
+  match l with
+  | [] => false
+  | (x, a) :: t => amp_tie s lib sel D x a
+                   || match design_amp s lib sel D x a with Ok r => amps_tie s lib sel (snd r) t | Err _ => false end
+  end.
+(* designed amplifiers of a line and their exported form: "d1|d2|...#e1|e2|..."; "TIE" when a rounding tie is near *)
 Definition run_amps (c : cfg) (s : scfg) (lib : list (string * alib)) (sel : list (string * string))
   (rg : list (string * Q)) (ops : list ain) (D0 ptot : Q) (l : line) : string :=
   match add_missing c l with
   | Err e => append "E:" e
   | Ok l1 =>
-      match design_line_amps c s (mk_lib lib) (mk_sel sel) (mk_rgain rg) (mk_ops ops) D0 ptot
-                             (match l_dk l with Roadm => true | Trx => false end) (conn c (l_els l1)) with
+      let els := conn c (l_els l1) in
+      let dr := match l_dk l with Roadm => true | Trx => false end in
+      let tie := match mapM (pad_run c) (runs els) with
+                 | Ok post => match amp_items c (mk_rgain rg) (mk_ops ops) ptot dr None (combine (runs els) post) with
+                              | Ok items => amps_tie s (mk_lib lib) (mk_sel sel) D0 items
+                              | Err _ => false
+                              end
+                 | Err _ => false
+                 end in
+      if tie then "TIE"%string else
+      match design_line_amps c s (mk_lib lib) (mk_sel sel) (mk_rgain rg) (mk_ops ops) D0 ptot dr els with
       | Err e => append "E:" e
       | Ok outs => append (join "|" (map aout_s outs)) (append "#" (join "|" (map (fun o => ain_s (export_amp o)) outs)))
       end
